@@ -22,8 +22,13 @@ import importlib, pkgutil, os
 
 SPECS = {}
 NOT_APPLICABLE = {}
+BROKEN = {}   # spec modules that do not import (a property's own broken spec must not take the other checks down)
 for m in sorted(pkgutil.iter_modules([os.path.dirname(__file__)]), key=lambda m: m.name):
-    mod = importlib.import_module('specs.' + m.name)
+    try:
+        mod = importlib.import_module('specs.' + m.name)
+    except Exception as e:  # noqa: BLE001
+        BROKEN[m.name] = repr(e)
+        continue
     if hasattr(mod, 'SPEC'):
         SPECS[mod.SPEC['id']] = mod.SPEC
     if hasattr(mod, 'NOT_APPLICABLE'):
